@@ -215,8 +215,24 @@ def _check_scale(ctx: Ctx, ser_terms: Dict[str, T.Term]) -> None:
     # ------------------------------------------------------------------ QAM
     cc = M.func(FUND, 'QAM._createConstellation')
     loc = T.local_terms(M, cc, opaque=set())
-    if 'average_energy' not in loc:
-        ctx.error('C16.b: QAM._createConstellation no longer defines average_energy as a formula')
+    # the mean-energy local, whatever it is called: the local whose square root divides the returned table
+    rets0 = [n for n in walk_no_nested(cc.node) if isinstance(n, ast.Return)]
+    ename = None
+    divs = []
+    if len(rets0) == 1 and isinstance(rets0[0].value, ast.BinOp) and isinstance(rets0[0].value.op, ast.Div):
+        divs = [rets0[0].value.right]
+    divs += [n.value for n in cc.node.body if isinstance(n, ast.AugAssign) and isinstance(n.op, ast.Div)]
+    from ..astutil import single_locals as _sl16
+    for dv in divs:
+        for x in ast.walk(_sl16(cc).get(dv.id, dv) if isinstance(dv, ast.Name) else dv):
+            if isinstance(x, ast.Call) and norm(x.func) in ('math.sqrt', 'np.sqrt') and x.args and isinstance(x.args[0], ast.Name):
+                ename = x.args[0].id
+    if ename is None and 'average_energy' in loc:
+        ename = 'average_energy'
+    if ename is None or ename not in loc:
+        ctx.error('C16.b: QAM._createConstellation no longer divides its table by the square root of a mean-energy formula held in a local')
+    if ename != 'average_energy':
+        loc['average_energy'] = loc[ename]
     E = T.substitute(loc['average_energy'], {'M': T.Term.sym('self._M')})
     # returned table is symbols / sqrt(average_energy)
     rets = [n for n in walk_no_nested(cc.node) if isinstance(n, ast.Return)]
@@ -231,10 +247,10 @@ def _check_scale(ctx: Ctx, ser_terms: Dict[str, T.Term]) -> None:
             return False
     norm_ok = False
     if len(rets) == 1 and isinstance(rets[0].value, ast.BinOp) and isinstance(rets[0].value.op, ast.Div) \
-            and norm(rets[0].value.left) == 'symbols':
+            and isinstance(rets[0].value.left, ast.Name):
         norm_ok = _is_sqrt_E(rets[0].value.right)
-    elif len(rets) == 1 and isinstance(rets[0].value, ast.Name) and rets[0].value.id == 'symbols':
-        augs = [n for n in cc.node.body if isinstance(n, ast.AugAssign) and isinstance(n.target, ast.Name) and n.target.id == 'symbols']
+    elif len(rets) == 1 and isinstance(rets[0].value, ast.Name):
+        augs = [n for n in cc.node.body if isinstance(n, ast.AugAssign) and isinstance(n.target, ast.Name) and n.target.id == rets[0].value.id]
         norm_ok = len(augs) == 1 and isinstance(augs[0].op, ast.Div) and _is_sqrt_E(augs[0].value)
     # half spacing of the grid from the complex(...) literal
     h2 = None
